@@ -377,6 +377,33 @@ class STok:
     def __rsub__(self, o):
         return self._bin("sub", o, True)
 
+    # order comparisons are decided for blocks known to be zero (|0| > tol is False); anything else stays a Python TypeError
+    def _known_zero(self):
+        t = self.term
+        while isinstance(t, tuple) and t and t[0] in ("abs", "absolute", "neg", "conj", "reshape", "transpose", "slice"):
+            t = t[1]
+        return isinstance(t, tuple) and bool(t) and t[0] == "zeros"
+
+    def __gt__(self, o):
+        if self._known_zero() and isinstance(o, (int, float)):
+            return 0 > o
+        return NotImplemented
+
+    def __ge__(self, o):
+        if self._known_zero() and isinstance(o, (int, float)):
+            return 0 >= o
+        return NotImplemented
+
+    def __lt__(self, o):
+        if self._known_zero() and isinstance(o, (int, float)):
+            return 0 < o
+        return NotImplemented
+
+    def __le__(self, o):
+        if self._known_zero() and isinstance(o, (int, float)):
+            return 0 <= o
+        return NotImplemented
+
     def __rtruediv__(self, o):
         return self._bin("div", o, True)
 
@@ -852,6 +879,8 @@ def shaped_libfn(table=None):
             return table[short]
 
         def generic(*args, **kwargs):
+            if short in ("any", "all") and len(args) == 1 and isinstance(args[0], bool):
+                return args[0]
             shp = next((a.shape for a in args if isinstance(a, STok)), ())
             if short in SIGN_EVEN and len(args) == 1 and isinstance(args[0], STok):
                 # f(-t) = f(t): of the two canonical forms of +-t keep the smaller one
